@@ -542,6 +542,10 @@ def gen_run(r, w, steps, emit, restarts=False):
     emit({"op": "new_ocp"})
     if swarm["parent_var"]:
         emit({"op": "sym", "name": "vP", "kind": "variable"})
+    swarm["parent_par"] = r.random() < 0.4
+    if swarm["parent_par"]:
+        emit({"op": "sym", "name": "pP", "kind": "parameter"})
+        emit({"op": "set_value", "p": "pP", "v": G.rnum(r)})
     names = {"tpl": [], "stage": []}
     shared = G.gen_method(r, cfg) if r.random() < 0.3 else None
     swarm["shared_method_object"] = bool(shared)
@@ -575,7 +579,9 @@ def gen_run(r, w, steps, emit, restarts=False):
         if names["tpl"]:
             kinds += [(2, "edit_template"), (2, "clone")]
         if swarm["parent_var"]:
-            kinds += [(1, "parent_obj")]
+            kinds += [(1, "parent_obj"), (1, "parent_guess")]
+        if swarm["parent_par"]:
+            kinds += [(1.5, "parent_value"), (1, "parent_par_couple")]
         k = G.wpick(r, kinds)
         a = w.act
         if k == "check":
@@ -618,6 +624,15 @@ def gen_run(r, w, steps, emit, restarts=False):
                     emit({"op": "subject_to", "expr": ["<=", ["in", s1, ["at_tf", ["i", G.pick(r, x1), 0]]], ["s", "vP"]]})
         elif k == "parent_obj":
             emit({"op": "add_objective", "expr": ["sq", ["-", ["s", "vP"], ["c", G.rnum(r)]]]})
+        elif k == "parent_guess":   # guess for the parent's own variable (also after a transcription)
+            emit({"op": "set_initial", "x": "vP", "g": ["num", G.rnum(r)]})
+        elif k == "parent_value":   # new value for the parent's own parameter (also after a transcription)
+            emit({"op": "set_value", "p": "pP", "v": G.rnum(r)})
+        elif k == "parent_par_couple":
+            s1 = G.pick(r, names["stage"])
+            x1 = a.sub[s1].spec.names("state") if s1 in a.sub else []
+            if x1:
+                emit({"op": "subject_to", "expr": ["<=", ["in", s1, ["at_tf", ["i", G.pick(r, x1), 0]]], ["+", ["s", "pP"], ["c", 5.0]]]})
     emit({"op": "check"})
 
     # nested helper state
